@@ -636,7 +636,7 @@ impl<'de> de::Deserializer<'de> for Value {
     }
 
     serde::forward_to_deserialize_any! {
-        bool u8 u16 u32 u64 i8 i16 i32 i64 f32 f64 char str string unit seq
+        bool u8 u16 u32 u64 u128 i8 i16 i32 i64 i128 f32 f64 char str string unit seq
         bytes byte_buf map unit_struct tuple_struct struct
         tuple ignored_any identifier
     }
@@ -913,6 +913,20 @@ impl ser::Serializer for ValueSerializer {
             self.serialize_i64(value as i64)
         } else {
             Err(ser::Error::custom("u64 value was too large"))
+        }
+    }
+
+    fn serialize_i128(self, value: i128) -> Result<Value, crate::ser::Error> {
+        match i64::try_from(value) {
+            Ok(value) => self.serialize_i64(value),
+            Err(_) => Err(ser::Error::custom("i128 value was out of range")),
+        }
+    }
+
+    fn serialize_u128(self, value: u128) -> Result<Value, crate::ser::Error> {
+        match i64::try_from(value) {
+            Ok(value) => self.serialize_i64(value),
+            Err(_) => Err(ser::Error::custom("u128 value was too large")),
         }
     }
 
